@@ -222,6 +222,7 @@ class Gen:
         Node("CGNSLibraryVersion_t.CGNSLibraryVersion", b"CGNSLibraryVersion", "arr:R4:1:33339340", self.root)
         self.calls = []            # (line, expected "i ..." answer, plan)
         self.kinds = set()
+        self.avoid_complex = True
 
     # -- emission
     def call(self, fn, at, name=b"", ints=(), strs=(), arrs=(), ret=None, plan=None):
@@ -337,7 +338,14 @@ def e_grid(g, par, p):
 
 def e_rind(g, par, p):
     idim = par.ctx["idim"]
-    rind = [g.rng.choice([0, 0, 1, 2]) for _ in range(2 * idim)]
+    r = g.rng.random()
+    if r < 0.1:
+        rind = [0] * (2 * idim)                                   # the default: no node is written
+    elif r < 0.55:
+        rind = [0] * (2 * idim)                                   # a single plane, at every position over time
+        rind[g.rng.randrange(2 * idim)] = g.rng.choice([1, 2, 3])
+    else:
+        rind = [g.rng.choice([0, 0, 1, 2]) for _ in range(2 * idim)]
     if p.kw.get("force"):
         rind = p.kw["force"]
     ci = g.call("rind", par, ints=rind, plan=p)
@@ -455,7 +463,7 @@ def rand_ptset(g, ctx, allow_range=True, limit=6):
     """(ptset type, npnts, flat points, size of patch)"""
     rng = g.rng
     idim, zs = ctx["idim"], ctx["zsize"]
-    if allow_range and rng.random() < 0.5:
+    if allow_range and limit >= 2 and rng.random() < 0.5:
         lo = [rng.randint(1, max(1, zs[j])) for j in range(idim)]
         hi = [rng.randint(lo[j], max(lo[j], zs[j])) for j in range(idim)]
         return 4, 2, lo + hi, prod(h - l + 1 for l, h in zip(lo, hi))
@@ -755,6 +763,13 @@ def e_gridlocation(g, par, p):
     g.expect_index(ci, None)
 
 
+def loc_of(node):
+    for k in node.kids:
+        if k.kind == "GridLocation_t.GridLocation":
+            return int(k.payload.split(":")[1])
+    return 2
+
+
 def e_user_data(g, par, p):
     ci = g.call("user_data", par, p.kw["name"], plan=p)
     n = Node("UserDefinedData_t", p.kw["name"], "none", par)
@@ -762,9 +777,21 @@ def e_user_data(g, par, p):
     return n
 
 
+LOADED = {"BCData_t.DirichletData", "BCData_t.NeumannData", "IntegralData_t", "ReferenceState_t.ReferenceState",
+          "ConvergenceHistory_t", "RigidGridMotion_t", "ArbitraryGridMotion_t", "BaseIterativeData_t", "ZoneIterativeData_t",
+          "Gravity_t.Gravity", "Axisymmetry_t.Axisymmetry", "RotatingCoordinates_t.RotatingCoordinates"}
+
+
 def e_array(g, par, p):
     rng = g.rng
-    dt = rng.choice(["I4", "I8", "R4", "R8", "C1", "X4", "X8"])
+    dts = ["I4", "I8", "R4", "R8", "C1", "X4", "X8"]
+    if par.kind in LOADED and g.avoid_complex:
+        dts = ["I4", "I8", "R4", "R8", "C1"]          # see the witness complex-array-unreadable
+    dt = p.kw.get("dt") or rng.choice(dts)
+    if par.kind == "ReferenceState_t.ReferenceState" and not p.kw.get("dims"):
+        p.kw["dims"] = [1]                               # cgi_read_state: "Wrong data dimension in Reference State definition"
+    if p.kw.get("sized"):                               # an array that must have the zone's data size
+        p.kw["dims"] = datasize(par.ctx, loc_of(par), rind_of(par))
     dims = p.kw.get("dims") or [rng.randint(1, 4) for _ in range(rng.choice([1, 1, 2, 3, 4]))]
     if p.kw.get("patch_of"):
         dims = [rng.choice([1, par.patch])]
@@ -775,6 +802,159 @@ def e_array(g, par, p):
     return n
 
 
+# ---- tranche 2
+def e_named(fn, kind, payload=lambda g, p: "none", ints=lambda g, p: [], ret=False):
+    def f(g, par, p):
+        ci = g.call(fn, par, p.kw["name"], ints(g, p), plan=p)
+        n = Node(kind, p.kw["name"], payload(g, p), par)
+        g.expect_index(ci, n if ret else None)
+        return n
+    return f
+
+
+e_discrete = e_named("discrete", "DiscreteData_t", ret=True)
+e_integral = e_named("integral", "IntegralData_t")
+e_ziter = e_named("ziter", "ZoneIterativeData_t")
+
+
+def e_enum_named(fn, kind, hi, ret=True):
+    def f(g, par, p):
+        ty = p.kw.setdefault("ty", g.rng.randint(0, hi))
+        ci = g.call(fn, par, p.kw["name"], [ty], plan=p)
+        n = Node(kind, p.kw["name"], "enum:%d" % ty, par)
+        g.expect_index(ci, n if ret else None)
+        return n
+    return f
+
+
+e_rigid = e_enum_named("rigid_motion", "RigidGridMotion_t", 3)
+e_arbitrary = e_enum_named("arbitrary_motion", "ArbitraryGridMotion_t", 3)
+
+
+def e_origin(g, par, p):
+    p.kw["dims"] = [par.ctx["phys"], 2]
+    p.kw["dt"] = g.rng.choice(["R4", "R8"])
+    p.kw["name"] = b"OriginLocation"
+    return e_array(g, par, p)
+
+
+@single("ReferenceState_t.ReferenceState")
+def e_state(g, par, p):
+    d = text(g.rng, 1, 80).replace(b";", b":")
+    ci = g.call("state", par, strs=[d], plan=p)
+    n = Node("ReferenceState_t.ReferenceState", b"ReferenceState", "none", par)
+    Node("Descriptor_t", b"ReferenceStateDescription", "str:" + hx(d), n)
+    g.expect_index(ci, None)
+    return n
+
+
+@single("ConvergenceHistory_t")
+def e_converg(g, par, p):
+    d = text(g.rng, 1, 80).replace(b";", b":")
+    it = g.rng.choice([0, 1, 100, 2147483647])
+    name = b"GlobalConvergenceHistory" if par.kind == "CGNSBase_t" else b"ZoneConvergenceHistory"
+    ci = g.call("convergence", par, name, [it], [d], plan=p)
+    n = Node("ConvergenceHistory_t", name, p_ints([1], [it]), par)
+    Node("Descriptor_t", b"NormDefinitions", "str:" + hx(d), n)
+    g.expect_index(ci, None)
+    return n
+
+
+@single("BaseIterativeData_t")
+def e_biter(g, par, p):
+    ns = p.kw["nsteps"]
+    ci = g.call("biter", par, p.kw["name"], [ns], plan=p)
+    n = Node("BaseIterativeData_t", p.kw["name"], p_ints([1], [ns]), par)
+    g.expect_index(ci, None)
+    return n
+
+
+@single("SimulationType_t.SimulationType")
+def e_simtype(g, par, p):
+    ty = g.rng.choice([1, 2, 3])
+    ci = g.call("simulation_type", par, ints=[ty], plan=p)
+    Node("SimulationType_t.SimulationType", b"SimulationType", "enum:%d" % ty, par)
+    g.expect_index(ci, None)
+
+
+def vec_node(par, name, data, n):
+    return Node("DataArray_t", name, p_arr("R4", [n], data), par)
+
+
+@single("Gravity_t.Gravity")
+def e_gravity(g, par, p):
+    ph = par.ctx["phys"]
+    v = rand_elems(g.rng, "R4", ph)
+    ci = g.call("gravity", par, arrs=[("R4", [ph], v)], plan=p)
+    n = Node("Gravity_t.Gravity", b"Gravity", "none", par)
+    vec_node(n, b"GravityVector", v, ph)
+    g.expect_index(ci, None)
+    return n
+
+
+@single("Axisymmetry_t.Axisymmetry")
+def e_axisym(g, par, p):
+    ph = par.ctx["phys"]
+    if ph != 2:
+        return None
+    a, b = rand_elems(g.rng, "R4", ph), rand_elems(g.rng, "R4", ph)
+    ci = g.call("axisym", par, arrs=[("R4", [ph], a), ("R4", [ph], b)], plan=p)
+    n = Node("Axisymmetry_t.Axisymmetry", b"Axisymmetry", "none", par)
+    vec_node(n, b"AxisymmetryReferencePoint", a, ph)
+    vec_node(n, b"AxisymmetryAxisVector", b, ph)
+    g.expect_index(ci, None)
+    return n
+
+
+@single("RotatingCoordinates_t.RotatingCoordinates")
+def e_rotating(g, par, p):
+    ph = par.ctx["phys"]
+    c, r = rand_elems(g.rng, "R4", ph), rand_elems(g.rng, "R4", ph)
+    ci = g.call("rotating", par, arrs=[("R4", [ph], c), ("R4", [ph], r)], plan=p)
+    n = Node("RotatingCoordinates_t.RotatingCoordinates", b"RotatingCoordinates", "none", par)
+    vec_node(n, b"RotationCenter", c, ph)
+    vec_node(n, b"RotationRateVector", r, ph)
+    g.expect_index(ci, None)
+    return n
+
+
+@single("FlowEquationSet_t.FlowEquationSet")
+def e_eqset(g, par, p):
+    dim = g.rng.choice([0, 1, 2, 3])
+    ci = g.call("equationset", par, ints=[dim], plan=p)
+    n = Node("FlowEquationSet_t.FlowEquationSet", b"FlowEquationSet", "none", par)
+    if dim:
+        Node("\"int\".EquationDimension", b"EquationDimension", p_ints([1], [dim]), n)
+    g.expect_index(ci, None)
+    return n
+
+
+@single("GoverningEquations_t.GoverningEquations")
+def e_governing(g, par, p):
+    ty = g.rng.randint(0, 8)
+    ci = g.call("governing", par, ints=[ty], plan=p)
+    n = Node("GoverningEquations_t.GoverningEquations", b"GoverningEquations", "enum:%d" % ty, par)
+    g.expect_index(ci, None)
+    return n
+
+
+# ---- calls that the current sources do not read back (witnesses of reported defects)
+def e_bc_normal_array(g, par, p):
+    """cg_goto (BC_t) + cg_array_write ("InwardNormalList"): the node the reader looks for is an IndexArray_t"""
+    dims = [par.ctx["phys"], par.patch]
+    data = rand_elems(g.rng, "R8", prod(dims))
+    ci = g.call("array", par, b"InwardNormalList", arrs=[("R8", dims, data)], plan=p)
+    Node("IndexArray_t.InwardNormalList", b"InwardNormalList", p_arr("R8", dims, data), par)
+    g.expect_index(ci, None)
+
+
+def e_multifam(g, par, p):
+    fam = b"SomeFamily"
+    ci = g.call("multifam", par, p.kw["name"], strs=[fam], plan=p)
+    Node("AdditionalFamilyName_t", p.kw["name"], "str:" + hx(fam), par)
+    g.expect_index(ci, None)
+
+
 # ----------------------------------------------------------------------------------------------- building a plan
 CTX = {      # node-context children that may be attached under a kind (what harness/c01_rt.c reads back there)
     "CGNSBase_t": "d c u U", "Zone_t": "d c u U o f", "GridCoordinates_t": "d c u U", "DataArray_t": "d c u v x",
@@ -783,6 +963,11 @@ CTX = {      # node-context children that may be attached under a kind (what har
     "ZoneGridConnectivity_t": "d U", "GridConnectivity1to1_t": "d U o", "GridConnectivity_t": "d U o",
     "OversetHoles_t": "d U", "Family_t": "d U o", "GeometryReference_t": "d U",
     "UserDefinedData_t": "d c u a l f o U",
+    "DiscreteData_t": "d c u U", "IntegralData_t": "d c u U a", "ReferenceState_t.ReferenceState": "d c u U a",
+    "ConvergenceHistory_t": "d c u U a", "RigidGridMotion_t": "d c u U", "ArbitraryGridMotion_t": "d c u U",
+    "BaseIterativeData_t": "d c u U a", "ZoneIterativeData_t": "d c u U a", "Gravity_t.Gravity": "d c u U",
+    "Axisymmetry_t.Axisymmetry": "d c u U", "RotatingCoordinates_t.RotatingCoordinates": "d c u U",
+    "FlowEquationSet_t.FlowEquationSet": "d c u U", "GoverningEquations_t.GoverningEquations": "d U",
 }
 
 
@@ -836,6 +1021,8 @@ class Planner:
         b = Plan("base", e_base, name=self.nm("Base"), cell=cell, phys=phys)
         b.kids += self.ctx_plans("CGNSBase_t")
         zones = []
+        # the zones of a base share a prefix of varying length: the reader sorts them by name (strcmp)
+        zprefix = bytes(rng.choice(NAME_CHARS) for _ in range(rng.choice([0, 0, 4, 9, 17, 26])))
         for _ in range(rng.randint(1, 4 if self.big else 3)):
             zt = rng.choice([2, 3])
             if zt == 2:
@@ -844,11 +1031,34 @@ class Planner:
             else:
                 nvt = rng.randint(4, 16)
                 sizes = [nvt, rng.randint(1, 9), rng.randint(0, nvt)]
-            zones.append((self.nm("Zone"), zt, sizes))
+            zones.append((zprefix + self.nm("Z")[:32 - len(zprefix)], zt, sizes))
         for zn, zt, sizes in zones:
             z = Plan("zone", e_zone, name=zn, zt=zt, sizes=sizes)
             self.zone(z, zt, cell, zones)
             b.kids.append(z)
+        has_biter = rng.random() < 0.5
+        if has_biter:
+            ns = rng.randint(1, 4)
+            bi = Plan("biter", e_biter, name=self.nm("BIter"), nsteps=ns)
+            bi.pre.append(Plan("array", e_array, name=b"TimeValues", dt="R8", dims=[ns]))
+            bi.kids += self.ctx_plans("BaseIterativeData_t")
+            b.kids.append(bi)
+        for zp in [k for k in b.kids if k.what == "zone"]:
+            if has_biter and rng.random() < 0.6:        # a ZoneIterativeData_t is only read when the base has BaseIterativeData_t
+                zi = Plan("ziter", e_ziter, name=self.nm("ZIter"))
+                zi.kids += self.ctx_plans("ZoneIterativeData_t")
+                zp.kids.append(zi)
+        b.kids += self.common_t2("CGNSBase_t")
+        if rng.random() < 0.4:
+            b.kids.append(Plan("simulation_type", e_simtype))
+        if rng.random() < 0.4:
+            gv = Plan("gravity", e_gravity)
+            gv.kids += self.ctx_plans("Gravity_t.Gravity")
+            b.kids.append(gv)
+        if phys == 2 and rng.random() < 0.6:
+            ax = Plan("axisym", e_axisym)
+            ax.kids += self.ctx_plans("Axisymmetry_t.Axisymmetry")
+            b.kids.append(ax)
         for _ in range(rng.choice([0, 1, 2])):
             f = Plan("family", e_simple("family", "Family_t"), name=self.nm("Fam"))
             for _ in range(rng.choice([0, 1, 2])):
@@ -865,9 +1075,65 @@ class Planner:
             b.kids.append(f)
         return b
 
+    def common_t2(self, kind):
+        """ReferenceState_t, ConvergenceHistory_t, IntegralData_t, FlowEquationSet_t, RotatingCoordinates_t (bases and zones)"""
+        rng = self.rng
+        out = []
+        if rng.random() < 0.35:
+            st = Plan("state", e_state)
+            st.kids += self.ctx_plans("ReferenceState_t.ReferenceState")
+            out.append(st)
+        if rng.random() < 0.35:
+            cv = Plan("convergence", e_converg)
+            cv.kids += self.ctx_plans("ConvergenceHistory_t")
+            out.append(cv)
+        for _ in range(rng.choice([0, 0, 1, 2])):
+            it = Plan("integral", e_integral, name=self.nm("Int"))
+            it.kids += self.ctx_plans("IntegralData_t", 0, 0.5)
+            out.append(it)
+        if rng.random() < 0.35:
+            eq = Plan("equationset", e_eqset)
+            if rng.random() < 0.7:
+                gv = Plan("governing", e_governing)
+                gv.kids += self.ctx_plans("GoverningEquations_t.GoverningEquations")
+                eq.kids.append(gv)
+            eq.kids += self.ctx_plans("FlowEquationSet_t.FlowEquationSet")
+            out.append(eq)
+        if rng.random() < 0.3:
+            ro = Plan("rotating", e_rotating)
+            ro.kids += self.ctx_plans("RotatingCoordinates_t.RotatingCoordinates")
+            out.append(ro)
+        return out
+
     def zone(self, z, zt, cell, zones):
         rng = self.rng
         z.kids += self.ctx_plans("Zone_t")
+        z.kids += self.common_t2("Zone_t")
+        for _ in range(rng.choice([0, 0, 1, 2])):
+            d = Plan("discrete", e_discrete, name=self.nm("Disc"))
+            if rng.random() < 0.5:
+                d.pre.append(Plan("gridlocation", e_gridlocation))
+            if rng.random() < 0.5:
+                d.pre.append(Plan("rind", e_rind))
+            for _ in range(rng.choice([0, 1, 2])):
+                d.kids.append(Plan("array", e_array, name=self.nm("DA"), dt=rng.choice(["R4", "R8", "I4", "I8"]), sized=True))
+            d.kids += self.ctx_plans("DiscreteData_t")
+            z.kids.append(d)
+        for _ in range(rng.choice([0, 0, 1])):
+            r = Plan("rigid_motion", e_rigid, name=self.nm("Rigid"))
+            r.pre.append(Plan("array", e_origin))
+            r.kids += self.ctx_plans("RigidGridMotion_t")
+            z.kids.append(r)
+        for _ in range(rng.choice([0, 0, 1])):
+            a = Plan("arbitrary_motion", e_arbitrary, name=self.nm("Arb"))
+            if rng.random() < 0.5:
+                a.pre.append(Plan("gridlocation", e_gridlocation))
+            if rng.random() < 0.5:
+                a.pre.append(Plan("rind", e_rind))
+            for _ in range(rng.choice([0, 1, 2])):
+                a.kids.append(Plan("array", e_array, name=self.nm("GV"), dt=rng.choice(["R4", "R8"]), sized=True))
+            a.kids += self.ctx_plans("ArbitraryGridMotion_t")
+            z.kids.append(a)
         # grid coordinates: the default node (created explicitly first when it gets rind planes) and others
         r = rng.random()
         coords = []
@@ -983,7 +1249,7 @@ def c_after(c):
     return w
 
 
-def gen_scenario(rng, big, removed=()):
+def gen_scenario(rng, big, removed=(), avoid_complex=True):
     """-> (Gen with calls and expected tree, list of all plans)"""
     state = rng.getstate()
     names = Names(rng)
@@ -995,23 +1261,32 @@ def gen_scenario(rng, big, removed=()):
             plans[i].removed = True
     g = Gen(rng, big)
     g.names = names
+    g.avoid_complex = avoid_complex
     g.schedule(tops)
     return g, plans, state
 
 
 # ----------------------------------------------------------------------------------------------- running
-CONFIGS = {
-    "adf": ["ft adf"],
-    "hdf5": ["ft hdf5", "cfg reset 0"],
-    "hdf5-core": ["ft hdf5", "cfg reset 0", "cfg diskless 1", "cfg diskless_write 1", "cfg diskless_incr 65536"],
-    "hdf5-align": ["ft hdf5", "cfg reset 0", "cfg alignment 1 4096", "cfg md_block 8192"],
-    "hdf5-compress": ["ft hdf5", "cfg reset 0", "cfg compress 6"],
-    "hdf5-buffers": ["ft hdf5", "cfg reset 0", "cfg buffer 4096", "cfg sieve 1024", "cfg alignment 512 512"],
+CONFIGS = {        # name -> (cg_configure calls before the write session, before the read session)
+    "adf": (["ft adf"], []),
+    "hdf5": (["ft hdf5", "cfg reset 0", "cfg diskless_write 0"], []),
+    # core VFD with write-through; read back through the core VFD (the write-through flag is refused for a read-only open)
+    "hdf5-core": (["ft hdf5", "cfg reset 0", "cfg diskless 1", "cfg diskless_write 1", "cfg diskless_incr 65536"],
+                  ["cfg diskless_write 0"]),
+    # written through the core VFD, read with the default driver
+    # (CG_CONFIG_RESET does not clear the write-through flag: it is cleared explicitly)
+    "hdf5-core-w": (["ft hdf5", "cfg reset 0", "cfg diskless 1", "cfg diskless_write 1"], ["cfg diskless_write 0", "cfg diskless 0"]),
+    "hdf5-align": (["ft hdf5", "cfg reset 0", "cfg diskless_write 0", "cfg alignment 1 4096", "cfg md_block 8192"], []),
+    "hdf5-buffers": (["ft hdf5", "cfg reset 0", "cfg diskless_write 0", "cfg buffer 4096", "cfg sieve 1024", "cfg alignment 512 512"],
+                     ["cfg reset 0"]),
 }
+# CG_CONFIG_HDF5_COMPRESS is not exercised: ADFH sets a deflate filter on datasets that are never chunked, so every
+# H5Dcreate2 -- i.e. every write call, starting with cg_open (CG_MODE_WRITE) -- fails (notes/C01.md, side findings)
 
 
 def impl_script(g, config, fname):
-    lines = list(CONFIGS[config]) + ["open w " + fname] + [c[0] for c in g.calls] + ["close", "dump " + fname, "read " + fname]
+    pre, mid = CONFIGS[config]
+    lines = list(pre) + ["open w " + fname] + [c[0] for c in g.calls] + ["close"] + list(mid) + ["dump " + fname, "read " + fname]
     return "\n".join(lines) + "\n"
 
 
@@ -1019,15 +1294,18 @@ def model_script(g):
     return "\n".join(["open w x"] + [c[0] for c in g.calls] + ["dump", "read"]) + "\n"
 
 
-def canon_kind(path):
-    """the path of an R line without indices: a stable description of where a mismatch is"""
-    return "/".join(re.sub(r":\d+$", "", s) for s in path.split("/") if s)
+def canon_kind(path, last=0):
+    """the path of an R line without indices (optionally only its last components): a stable description of where a
+    mismatch is"""
+    parts = [re.sub(r":\d+$", "", s) for s in path.split("/") if s]
+    return "/".join(parts[-last:] if last else parts)
 
 
 def judge(g, il, outcome, config):
     """model-independent oracle.  -> list of failures (dicts with a stable 'key')"""
     fails = []
-    npre = len(CONFIGS[config]) + 1
+    npre = len(CONFIGS[config][0]) + 1
+    nmid = len(CONFIGS[config][1])
     pre = il[:npre]
     if outcome != "ok":
         fails.append({"key": "run-ended:" + outcome.split("@")[0], "what": "run ended: " + outcome, "last": il[-2:]})
@@ -1050,14 +1328,19 @@ def judge(g, il, outcome, config):
     if not rest or rest[0] != "c 0":
         fails.append({"key": "close-failed", "what": "cg_close failed", "got": rest[:1]})
         return fails
+    if any(l != "c 0" for l in rest[1:1 + nmid]):
+        fails.append({"key": "setup-failed", "what": "configure before the read session failed", "got": rest[1:1 + nmid]})
+        return fails
     ends = [l for l in rest if l.startswith("E read")]
     if not ends or not ends[0].startswith("E read ok:0"):
-        fails.append({"key": "reopen-failed", "what": "cg_open(CG_MODE_READ) of the file just written failed", "got": ends})
+        msg = ends[0].split(None, 3)[3] if ends and len(ends[0].split(None, 3)) > 3 else ""
+        msg = re.sub(r"\.+$", "", re.sub(r"\.{2,}.*$", "", msg))[:44]
+        fails.append({"key": "reopen-failed:" + msg, "what": "cg_open(CG_MODE_READ) of the file just written failed", "got": ends})
         return fails
     for l in rest:
         if l.startswith("X "):
             w = l.split()
-            fails.append({"key": "read-api-error:%s:%s" % (canon_kind(w[1]), w[2].split("(")[0]), "what": "a read call failed after reopen", "line": l[:300]})
+            fails.append({"key": "read-api-error:%s:%s" % (canon_kind(w[1], 2), w[2].split("(")[0]), "what": "a read call failed after reopen", "line": l[:300]})
     got = sorted(l for l in rest if l.startswith("R "))
     exp = sorted(expected_lines(g.root))
     if got != exp:
@@ -1069,13 +1352,13 @@ def judge(g, il, outcome, config):
             if a == b:
                 continue
             if a is None:
-                fails.append({"key": "missing-after-reopen:" + canon_kind(pth), "what": "an entity that was written is not reported after reopen", "expected": b[:400]})
+                fails.append({"key": "missing-after-reopen:" + canon_kind(pth, 2), "what": "an entity that was written is not reported after reopen", "expected": b[:400]})
             elif b is None:
-                fails.append({"key": "extra-after-reopen:" + canon_kind(pth), "what": "an entity is reported that was not written", "got": a[:400]})
+                fails.append({"key": "extra-after-reopen:" + canon_kind(pth, 2), "what": "an entity is reported that was not written", "got": a[:400]})
             else:
                 wa, wb = a.split(), b.split()
                 part = "name" if wa[2] != wb[2] else "value"
-                fails.append({"key": "differs-after-reopen:%s:%s" % (canon_kind(pth), part), "what": "what is reported after reopen differs from what was written",
+                fails.append({"key": "differs-after-reopen:%s:%s" % (canon_kind(pth, 2), part), "what": "what is reported after reopen differs from what was written",
                               "got": a[:400], "expected": b[:400]})
             if len(fails) > 8:
                 break
@@ -1085,7 +1368,7 @@ def judge(g, il, outcome, config):
 def correspond(il, ml, g, config):
     """model vs implementation: tree dump (tie i), reader's report (tie ii), indices, acceptance"""
     divs = []
-    npre = len(CONFIGS[config]) + 1
+    npre = len(CONFIGS[config][0]) + 1
     ians = il[npre:npre + len(g.calls)]
     mans = ml[:len(g.calls)]
     for i, (a, b) in enumerate(zip(ians, mans)):
@@ -1122,13 +1405,13 @@ def run_case(exe, g, config, work, tag):
     return il, outcome
 
 
-def shrink(exe, rng_state, big, config, work, key, budget=60):
+def shrink(exe, rng_state, big, config, work, key, budget=60, avoid_complex=True):
     """remove planned entities while the same failure key reproduces; -> (removed indices, calls)"""
     import random
     def build(removed):
         r = random.Random()
         r.setstate(rng_state)
-        g, plans, _ = gen_scenario(r, big, removed)
+        g, plans, _ = gen_scenario(r, big, removed, avoid_complex)
         return g, plans
     g, plans = build(())
     removed = []
@@ -1147,6 +1430,72 @@ def shrink(exe, rng_state, big, config, work, key, budget=60):
             removed = cand
     g2, _ = build(removed)
     return removed, g2
+
+
+def witness_plans():
+    """(finding key, what fails, plan tree, extra harness lines) for every defect reported in notes/C01.md"""
+    def chain(*ps):
+        for a, b in zip(ps, ps[1:]):
+            a.kids.append(b)
+        return ps[0]
+    def base():
+        return Plan("base", e_base, name=b"Base", cell=3, phys=3)
+    def uzone():
+        return Plan("zone", e_zone, name=b"Zone", zt=3, sizes=[8, 1, 0])
+    out = []
+    out.append(("complex-array-unreadable",
+                "a ComplexSingle / ComplexDouble DataArray_t accepted by cg_array_write under a node whose arrays are loaded by cg_open "
+                "(IntegralData_t, ReferenceState_t, ...) makes cg_open(CG_MODE_READ) fail: cgi_read_node allocates no buffer for X4 / X8",
+                chain(base(), Plan("integral", e_integral, name=b"Int"), Plan("array", e_array, name=b"A", dt="X4", dims=[1])), []))
+    out.append(("complex-array-children-lost",
+                "the same under BCData_t, where cgi_read_bcdata ignores the status of cgi_read_array: the file opens, but the "
+                "descriptors / units / exponents / conversion of the complex array are not reported",
+                chain(base(), uzone(), Plan("boco", e_boco, name=b"BC"), Plan("dataset", e_dataset, name=b"DS"), Plan("bcdata", e_bcdata, ty=2),
+                      Plan("array", e_array, name=b"A", dt="X8", dims=[1]), Plan("descriptor", e_descr, name=b"D")), []))
+    out.append(("bc-array-not-read-back",
+                "cg_array_write at a BC_t position (cgi_array_address hands out boco->normal) creates a DataArray_t node; cgi_read_boco "
+                "only looks for an IndexArray_t named InwardNormalList, so the array is gone after reopen",
+                chain(base(), uzone(), Plan("boco", e_boco, name=b"BC"), Plan("array", e_bc_normal_array)), []))
+    out.append(("multifam-under-family-not-read-back",
+                "cg_multifam_write is accepted at a Family_t position and writes an AdditionalFamilyName_t node; cgi_read_family collects "
+                "FamilyName_t only and cg_nmultifam refuses a Family_t position",
+                chain(base(), Plan("family", e_simple("family", "Family_t"), name=b"Fam"), Plan("multifam", e_multifam, name=b"Add")),
+                ["opt multifam 1"]))
+    out.append(("refstate-array-shape-unreadable",
+                "cg_array_write accepts any shape under ReferenceState_t; cgi_read_state demands rank 1, size 1 and makes "
+                "cg_open(CG_MODE_READ) fail otherwise",
+                chain(base(), Plan("state", e_state), Plan("array", e_array, name=b"A", dt="R8", dims=[2])), []))
+    out.append(("ziter-without-biter-dropped",
+                "cg_ziter_write succeeds in a base without BaseIterativeData_t; cgi_read_zone skips ZoneIterativeData_t unless the base has "
+                "one, so the node (and everything below it) is not reported after reopen",
+                chain(base(), uzone(), Plan("ziter", e_ziter, name=b"ZIter")), []))
+    return out
+
+
+def run_witnesses(ck, exe, work):
+    """-> {key: witness} for the reported defects that still fail on the library under test"""
+    import random
+    active = {}
+    for key, what, top, extra in witness_plans():
+        for cf in ("adf", "hdf5"):
+            g = Gen(random.Random(7), False)
+            g.avoid_complex = False
+            g.schedule([top])
+            pre, mid = CONFIGS[cf]
+            fname = "c01_w_%s_%s.cgns" % (key[:20], cf)
+            script = "\n".join(list(pre) + extra + ["open w " + fname] + [c[0] for c in g.calls] + ["close", "dump " + fname, "read " + fname]) + "\n"
+            il, outcome = vlib.run_impl(exe, script, cwd=work, timeout=120)
+            try:
+                os.unlink(os.path.join(work, fname))
+            except OSError:
+                pass
+            il2 = [l for i, l in enumerate(il) if not (len(pre) <= i < len(pre) + len(extra))]      # drop the answers to the extra lines
+            fs = judge(g, il2, outcome, cf)
+            ck.cov["evaluations"] += 1
+            ck.cov["traces_validated_against_impl"] += 1
+            if fs and key not in active:
+                active[key] = {"what": what, "config": cf, "script": script.split("\n"), "failure": fs[0]}
+    return active
 
 
 UNMODELLED = ["particle zones / coordinates / solutions (ParticleZone_t ...)", "zone sub-regions (ZoneSubRegion_t)",
@@ -1213,6 +1562,13 @@ def run(ck):
                       "special patterns (NaN payloads, +-0, denormals, +-inf, extreme magnitudes); names 1..32 printable characters.  "
                       "Every file is written and read on ADF and HDF5 (thorough: + core VFD, alignment, compression, buffer sizes).  "
                       "non-trivial = an entity reported after reopen; distinct by (configuration, kind path without indices)")
+    # ---- the defects already reported: still there?  (their triggers are then kept out of the random files, so that
+    #      the correspondence and the oracle stay sharp for everything else)
+    active = run_witnesses(ck, exe, ck.work)
+    ck.extra["reported_defects_still_failing"] = sorted(active)
+    for key, wit in sorted(active.items()):
+        ck.finding(key, {"oracle": ORACLE, "witness": wit, "replay_hint": ".build/h/c01_rt < script (one command per line)"})
+    avoid_complex = "complex-array-unreadable" in active or "complex-array-children-lost" in active
     nsc = 10 if big else 3
     configs_all = list(CONFIGS)
     dist = {"files": 0, "calls": 0, "entities": 0, "functions": set(), "kinds": set(), "configs": {}}
@@ -1221,7 +1577,7 @@ def run(ck):
     def one(j, label, configs):
         import random
         rng = random.Random(ck.rng.getrandbits(64))
-        g, plans, state = gen_scenario(rng, big)
+        g, plans, state = gen_scenario(rng, big, avoid_complex=avoid_complex)
         ml = vlib.run_model("c01", model_script(g)) if engine_ok else None
         exp = expected_lines(g.root)
         dist["calls"] += len(g.calls)
@@ -1261,10 +1617,14 @@ def run(ck):
             if fails_seen:
                 break
     # ---- verdicts
-    for key, w in sorted(fails_seen.items()):
+    ck.extra["failure_keys"] = sorted(fails_seen)
+    for n_rep, (key, w) in enumerate(sorted(fails_seen.items())):
+        if n_rep >= 6:
+            break
         wit = {"failure": w["failure"], "config": w["config"]}
         try:
-            removed, g2 = shrink(exe, w["state"], big, w["config"], ck.work, key) if key != "backend-disagree" else ([], None)
+            removed, g2 = shrink(exe, w["state"], big, w["config"], ck.work, key, budget=40 if n_rep < 3 else 0, avoid_complex=avoid_complex) \
+                if key != "backend-disagree" else ([], None)
             if g2 is not None:
                 wit["script"] = impl_script(g2, w["config"], "replay.cgns").split("\n")
                 wit["calls_before_shrinking"] = w["ncalls"]
